@@ -152,7 +152,17 @@ def nontrivial(e):
 
 
 def check(tier, seed):
-    return base.standard_check(PID, tier, seed, tasks(tier, seed), MODELS[tier], RULE, nontrivial,
+    from .. import tlc
+
+    def extra(res, done):
+        # unbounded partial correctness of the closure loop (any Q, any E): TLAPS, spec/proofs/EpsClosureProof.tla
+        n = tlc.run_tlaps("EpsClosureProof")
+        res.notes["tlaps"] = {"module": "spec/proofs/EpsClosureProof.tla", "obligations_proved": n,
+                              "theorems": ["InitInv", "NextInv", "Invariance", "ExactAtTermination"],
+                              "meaning": "for every state set, edge relation and start set the closure loop's result is "
+                                         "exactly the least E-closed superset of the start set when it stops"}
+
+    return base.standard_check(PID, tier, seed, tasks(tier, seed), MODELS[tier], RULE, nontrivial, extra=extra,
                                assumptions=["single-character symbols", "transition tables as the library's "
                                             "constructors build them (defaultdict or total dict)",
                                             "bounded universes: <= 6 states, words <= 4"])
